@@ -47,6 +47,18 @@
 //	                  constants maxPeerProtocols / connectedPeerMaxAddrs of id.go, as upper bounds only; opts.go documents
 //	                  no option for them). The protocol cap is only observable when pstoremem's own limit (128) is
 //	                  raised: half of the runs build the observer's peerstore with WithMaxProtocols(1<<20).
+//	unconnected-address-cap/single-batch  the observer's address book is built with pstoremem.WithMaxAddressesPerPeer(n),
+//	                  n drawn 64|32|100 ("caps the unconnected addresses stored per peer. When the cap is full, adding a
+//	                  new addr evicts the unconnected entry with the nearest expiry"). Reading: ADDING (one by one or as
+//	                  one batch) must not take a peer that is at or below n above n. Premise, from the harness's own model
+//	                  (singleBatchPremise): a message M was consumed while the observer had, and ever after has, no
+//	                  connection to byz, and pre-existing short-lived addresses + everything all OTHER written messages
+//	                  vouch for is <= n. Then at a quiescent instant without connection at most n non-permanent addresses
+//	                  are kept. Message list sizes sit around the caps (20/21, 60/64/65/100, 499/500/501/700/900); a sixth
+//	                  of the runs uses the template "one connection, plain message with 65|100|499|500|700|60|64 used
+//	                  addresses as push or response, close started at consumeMessage's first peerstore call which is
+//	                  held back until Disconnected has run". The global bound (address-cap: <= 500 beyond pre-existing
+//	                  at EVERY quiescent check, connected or not) is independent of it.
 //	address-cap-after-disconnect  after the final close of the last connection AT QUIESCENCE at most 20 addresses
 //	                  beyond the pre-existing ones remain (recentlyConnectedPeerMaxAddrs: "number of addresses to keep
 //	                  for peers we have disconnected from"). Not asserted when the last close raced with activity: a
@@ -79,6 +91,19 @@
 //	                  an honest peer carries that peer's agent string. EvtPeerIdentificationFailed names only peers
 //	                  that had a connection, and never an honest peer (their links are fault-free).
 //
+// OBSERVATION (probe observed-disconnected-peer-above-unconnected-cap, never a violation; decision of the lead: the
+// statement says "capped" without a figure and 500, the connected cap, is never exceeded): a disconnected peer can keep
+// up to 500 addresses at RecentlyConnectedAddrTTL although the address book's per-peer cap for unconnected addresses
+// is n (32|64|100). Root cause, pstoremem/addr_book.go: (1) UpdateAddrs moving entries out of the connected class
+// (ConnectedAddrTTL -> Temp/RecentlyConnected) never enforces maxAddrsPerPeer; (2) addAddrsUnlocked evicts exactly ONE
+// entry per insert ("count >= cap"), so an entry that is above the cap stays above it; (3) the TTL-upgrade path for
+// an address already present has no cap check. Identify normally hides (1) because Disconnected trims to 20 itself;
+// it shows when a message with > n addresses is consumed between the swarm dropping the LAST connection and its
+// Disconnected notification, after another message with > n addresses was stored while connected. API level:
+// AddAddrs(p,500,ConnectedAddrTTL); UpdateAddrs(p,Connected,Temp); AddAddrs(p,100,RecentlyConnected);
+// UpdateAddrs(p,Temp,0) => 100 kept with WithMaxAddressesPerPeer(32); AddAddrs(p,500,Connected);
+// UpdateAddrs(p,Connected,RecentlyConnected) => 500 kept. About 1 run in 10 000.
+//
 // A refused push / failed identify (rate limit, oversized chunk, >9 chunks, reset, timeout) is always legal: every
 // oracle is an upper bound on what may be recorded.
 //
@@ -108,6 +133,9 @@
 //	  scratch copy) ........................................................ C13/identify-wait-not-released (run 0),
 //	  C13/identify-stream-left/outbound-id and /outbound-id-push (wedged sendPushes); was MISSED before the MUTE
 //	  behaviour existed (byz always answered multistream-select)
+//	third-round seed C13c-1: pstoremem addAddrsUnlocked evaluates the per-peer cap once per batch (real patch through
+//	  VERIF_REPO) ........................................................... C13/unconnected-address-cap/single-batch
+//	  (run 176 of a 45 s / 8 worker quick run; MISSED before: no oracle looked at the unconnected cap)
 //	Disconnected without addrMu (race) ..................................... 6/6 C13/addr-kept-after-disconnect (needs the held peerstore call)
 //	consumeMessage reads Connectedness before taking addrMu (race with a
 //	  two-decision window, nothing to hold) ................................ 1/8 workers in 50 s in two of three attempts
